@@ -61,6 +61,12 @@ impl PS {
     pub const fn has(self, p: Prop) -> bool {
         self.0 & p.bit() != 0
     }
+    pub const fn inter(self, o: PS) -> PS {
+        PS(self.0 & o.0)
+    }
+    pub const fn union(self, o: PS) -> PS {
+        PS(self.0 | o.0)
+    }
 }
 
 #[derive(Clone, Copy, PartialEq, Eq, Debug, Hash)]
